@@ -25,6 +25,12 @@ package main
 //     writes), panic or race report is a finding with the head of stderr as detail. This is the
 //     stream that sees unsynchronised access to session state from step/signal goroutines.
 //
+// A failing step must be REPORTED: for every accepted work-start whose handler ended in a failure
+// (undeclared output ID, invalid output data, panic) there must be a step-fatal error message for
+// its run ID on the wire, or a ServerError with its run ID in the slice RunATPServer returns - also
+// when the failure happens after the server stopped writing (end of input, malformed or truncated
+// message, failed write, cancellation). The finding names the run and the stop point.
+//
 // Oracle findings (prop C07): process crash, RunATPServer not returning after input ended and all
 // handlers were released, a run whose number of terminal messages differs from the number of its
 // accepted work-starts while the output was open, corrupted output framing.
@@ -432,8 +438,17 @@ func atpsRunSession(sess *atpsSession, to atpsTimeouts) (out atpsOutcome) {
 	plugin := r.plugin()
 
 	returned := make(chan int, 1)
+	returnedRuns := map[string]int{} // run ID -> ServerErrors returned for it
+	var retMu sync.Mutex
 	go func() {
 		errs := atp.RunATPServer(ctx, inR, outW, plugin)
+		retMu.Lock()
+		for _, e := range errs {
+			if e != nil {
+				returnedRuns[e.RunID]++
+			}
+		}
+		retMu.Unlock()
 		r.log(map[string]any{"e": "ret", "n": len(errs)})
 		returned <- len(errs)
 		_ = outW.Close()
@@ -444,6 +459,7 @@ func atpsRunSession(sess *atpsSession, to atpsTimeouts) (out atpsOutcome) {
 	var outMu sync.Mutex
 	doneCount := map[int]int{}     // run -> work-done messages
 	stepFatal := map[int]int{}     // run -> step-fatal (not server-fatal) error messages
+	wireStepFatal := map[string]int{} // the same by run ID text
 	serverFatalSeen := false       // a server-fatal error message was written
 	readerDone := make(chan struct{})
 	go func() {
@@ -515,6 +531,7 @@ func atpsRunSession(sess *atpsSession, to atpsTimeouts) (out atpsOutcome) {
 					serverFatalSeen = true
 				} else if em.StepFatal {
 					stepFatal[n]++
+					wireStepFatal[m.RunID]++
 				}
 				outMu.Unlock()
 			default:
@@ -665,6 +682,54 @@ func atpsRunSession(sess *atpsSession, to atpsTimeouts) (out atpsOutcome) {
 	out.Findings = append(out.Findings, outFindings...)
 	if out.End == "hang" {
 		out.Findings = append(out.Findings, fmt.Sprintf("RunATPServer did not return within %v after input ended and all handlers were released", to.hang))
+	}
+	// a failing step is reported on the wire or in the returned slice, whenever it fails
+	if out.End == "returned" {
+		failed := map[string]int{} // run ID -> handlers that ended in a failure
+		var order []string
+		for _, ev := range out.Events {
+			if ev["e"] != "exit" {
+				continue
+			}
+			b, _ := ev["b"].(string)
+			src, _ := ev["src"].(int)
+			if (b == "fail" || b == "panic") && src > 0 && src < len(items) && items[src].accepted() {
+				run := items[src].Decoded.RunID
+				if failed[run] == 0 {
+					order = append(order, run)
+				}
+				failed[run]++
+			}
+		}
+		var stops []string
+		if outputBroken {
+			stops = append(stops, "the client closed the output")
+		}
+		if cancelled {
+			stops = append(stops, "the context was cancelled")
+		}
+		if serverFatalSeen {
+			stops = append(stops, "a server-fatal error message was written")
+		}
+		for i, it := range items {
+			if it.Bad {
+				stops = append(stops, fmt.Sprintf("the item at stream position %d was malformed", i))
+				break
+			}
+		}
+		if inputClosed {
+			stops = append(stops, "the input ended")
+		}
+		retMu.Lock()
+		for _, run := range order {
+			k := failed[run]
+			if wireStepFatal[run] < k && returnedRuns[run] < k {
+				out.Findings = append(out.Findings, fmt.Sprintf(
+					"the step of run %q failed (%d handler(s) ended in undeclared/invalid output or a panic) but only %d step-fatal error message(s) for it are on the wire and %d ServerError(s) for it were returned; stop point(s) of this session: %s",
+					run, k, wireStepFatal[run], returnedRuns[run], strings.Join(stops, "; ")))
+			}
+		}
+		retMu.Unlock()
 	}
 	// expected terminal messages per run, computed statelessly from the items the loop can reach
 	expected := map[int]int{}
